@@ -12,6 +12,19 @@ WSIG2 = scopes.SIG2 + ["z"]
 CHUNK = 220   # queries per task (load balancing; a task = one base x one slice of its query set)
 
 
+def alt_keys(i, n):
+    """Programmatically built bases use, by residue class of the task index, the parser's keys 1..n (None), keys
+    2..n+1, keys 0..n-1, or gapped keys 1,3,5,.. - all are legitimate distinct integer keys."""
+    r = i % 5
+    if r == 2:
+        return [k + 2 for k in range(n)]
+    if r == 3:
+        return list(range(n))
+    if r == 4:
+        return [2 * k + 1 for k in range(n)]
+    return None
+
+
 def nq_type(conds, sig, spec):
     sems = [forms.sem(c, sig) for c in conds]
     nW = 1 << len(sig)
@@ -53,7 +66,7 @@ class OperatorCheck(Check):
             n += 1
             qspec = ("list", q2 if scope == "B1" else qs2)
             out.append(opsem.make_task(scopes.SIG2, conds, self.weakly, self.cfgs, qspec, via=via, wsig=WSIG2, cls=cls,
-                                       scope=scope))
+                                       scope=scope, keys=alt_keys(n, len(conds)) if via == "api" else None))
         for alpha_name, size, per_class, tq in self.b3[tier]:
             size = min(size, self.maxn[tier] if isinstance(self.maxn, dict) else self.maxn)
             reps, st = scopes.structural_scope(getattr(scopes, alpha_name), scopes.SIG3, size, self.want, seed, per_class)
@@ -64,7 +77,8 @@ class OperatorCheck(Check):
                 nch = max(1, -(-nq // CHUNK))
                 for ch in range(nch):
                     out.append(opsem.make_task(scopes.SIG3, conds, self.weakly, self.cfgs, ("type", tq[0], tq[1], True),
-                                               via=via, cls=cls, scope="B3(%d)-%s" % (size, alpha_name), qslice=(ch, nch)))
+                                               via=via, cls=cls, scope="B3(%d)-%s" % (size, alpha_name), qslice=(ch, nch),
+                                               keys=alt_keys(i, len(conds)) if via == "api" else None))
                 if alpha_name == "L3" and i % max(1, len(reps) // max(1, self.sem_all_bases[tier])) == 0 \
                         and self.sem_all_bases[tier] and len(conds) >= 3:
                     for r_ in range(30):
